@@ -69,6 +69,7 @@ type qlog struct {
 func runLookupNode(seed uint64) {
 	p := loadOrGenPlan("lookup-node", seed, genLookupNode)
 	w := newWorld(seed, "C10", "lookup-node")
+	w.wedgeIsViolation = true
 	w.res.Class = "node-lookup"
 	rs := newPrng(seed ^ 0x100c)
 	var selfID enode.ID
@@ -338,6 +339,7 @@ func genLookupContent(r *prng) *plan {
 func runLookupContent(seed uint64) {
 	p := loadOrGenPlan("lookup-content", seed, genLookupContent)
 	w := newWorld(seed, "C10", "lookup-content")
+	w.wedgeIsViolation = true
 	w.res.Class = "content-lookup"
 	vv := versionSets[p.cfg("vv")%3]
 	rs := newPrng(seed ^ 0xc10c)
